@@ -204,6 +204,18 @@ CLAIMED = {
              'duplicates" rests on C10/C11 plus the pipeline search; known findings: /att/ names, names holding AARE metacharacters.',
         technique='Lean 4 proof (mask coverage, per-class field coverage) + differential run + AARE-oracle search on the real pipeline',
         ref='8/C16'),
+    'C06': dict(
+        text='Lean 4 theorems: the nested attachment /{r1,...,rn} written into the header expands (alternation semantics) to exactly '
+             'the union of the expansions of the attachments /r1 ... /rn, and its text is what GetAttachments produces; a single '
+             'attachment is written as is. Resolve and GetAttachments are run against the model (shared with C13). On every built '
+             'profile with an @{exec_path} attachment the literal header attachment is compared with the expansion of @{exec_path} '
+             'that apparmor_parser -D expanded-variables prints for the same built file under the shipped tunables (sets of '
+             'brace-free patterns); the rules generated by every exec directive are compared with the target profile likewise.',
+        note='Trusted: Lean kernel; partial: agreement of the resolver built-in variable table with the shipped tunables is decided per '
+             'built profile by the reference parser, not proved; language equality is decided on the full brace expansion (sufficient, '
+             'not necessary); 9 profiles using @{user_share_dirs} are known findings.',
+        technique='Lean 4 proof (alternation semantics of the nesting) + differential run + reference-parser expansion on every built profile',
+        ref='8/C06'),
 }
 
 REASON_TODO = 'check not built yet in this round; no claim is made (see DESIGN.md section 13)'
